@@ -19,6 +19,7 @@ keyed as such.
 from __future__ import annotations
 
 import itertools
+import re
 
 from .. import determinism
 from ..catalogue import DT
@@ -113,6 +114,11 @@ def run(chk):
     n_tuples = 0
     n_accept = 0
     null_ties: dict[str, int] = {}
+    new_null_ties: dict = {}
+    # the recorded extent of the known finding about null-typed arguments (known_findings.json): ties outside it are new
+    from ..report import load_known
+
+    known_extent = next((k.get("extent") for k in load_known() if k.get("property") == "C13" and k.get("rule") == "UNIQ" and k.get("extent")), None)
     accepted: dict[str, dict] = {}
     ops_mod = cat.star_modules[0]
     sized_int = [DT(f"{u}Int{b}") for u in ("U", "") for b in (8, 16, 32, 64)]
@@ -154,6 +160,9 @@ def run(chk):
                 if oc[0] == "amb":
                     if any(M.wc(t).cls == "NullType" for t in tup):
                         null_ties[var] = null_ties.get(var, 0) + 1
+                        fam = ",".join(sorted({re.sub(r"^U?Int\d*$", "Int", M.wc(t).cls) for t in tup if M.wc(t).cls != "NullType"}))
+                        if known_extent is not None and var not in known_extent.get(fam, ()):
+                            new_null_ties.setdefault((var, fam), tup)
                     else:
                         bad_uniq.append((tup, [c[0] for c in oc[1].cands][:3]))
                 elif oc[0] == "int":
@@ -176,6 +185,13 @@ def run(chk):
         f"null-typed arguments tie between overloads for {len(null_ties)} operators ({sorted(null_ties)[:8]}..): every conversion "
         f"target of NullType costs {sorted(costs)}, so e.g. `x + x` on an all-null column fails the uniqueness assertion",
     )  # fmt: skip
+
+    for (var, fam), tup in sorted(new_null_ties.items()):
+        op = cat.ops[var]
+        chk.ob("UNIQ", op.module, op.node, f"ops.{var}: a null-typed argument next to [{fam or 'null-typed arguments only'}] selects a unique overload", False,
+               f"operator `{op.name}` with a null-typed argument and arguments of type {fam or '(all null)'} ties between overloads, e.g. {tup}: "
+               "best_signature_match fails its uniqueness assertion (AssertionError) for a call that type-checks for the sized float / int types "
+               "(e.g. `col == None`, `fill_null`, `shift` with its default fill value on such a column)")  # fmt: skip
 
     # ---- SIZED
     for var, op in cat.ops.items():
@@ -257,15 +273,21 @@ def run(chk):
            f"lca_type fails internally for {len(internal)} combinations, e.g. {internal[0] if internal else ''}")  # fmt: skip
     chk.extra_cov["lca_combinations"] = n_l
 
-    # ---- MODEL: structural facts of the matcher that the model relies on (each a necessary condition of M1-M6)
-    _model_conformance(chk, m)
-
-    # ---- XMODEL: hand-written trie walk vs interpreted source of ops/signature.py
+    # ---- XMODEL: hand-written trie walk vs interpreted source of ops/signature.py (and of the type functions it calls)
     from .. import colexprsim
     from ..model import model_of as _mo
 
-    colexprsim.report(chk, _mo(chk), "EXPRv", ["ColFn.dtype", "CaseExpr.dtype"], floor=25)
+    expr_decided = colexprsim.report(chk, _mo(chk), "EXPRv", ["ColFn.dtype", "CaseExpr.dtype"], floor=25)
     _xmodel(chk, cat, thorough)
+
+    # ---- MODEL: structural facts of the matcher that the model relies on (each a necessary condition of M1-M6).  When XMODEL
+    # has compared the model with the interpreted source (it raises otherwise) and EXPRv has decided ColFn.dtype, these facts
+    # are consequences; their spelling is only read when that was not possible
+    if expr_decided:
+        sig_ = chk.repo.mod("ops.signature")
+        chk.ok("MODEL", sig_, sig_.func("best_signature_match"), "matcher structure: implied by XMODEL (model == interpreted source) and EXPRv")
+    else:
+        _model_conformance(chk, m)
 
     # ---- CONSTREJ: type checks outside the overload matcher (when / filter / join on / cast ...)
     from .. import constness
